@@ -712,7 +712,74 @@ def r12_5(ctx, prog, crate):
             ctx.check(ok2, "R12.5", ["EntryTree::retain", "args-of-this-leaf"], "Vec::retain is not applied to the leaf's own `args: Some(..)`: %s" % (S.op(ar[0].args[0]),), ar[0].line())
 
 
+def r12_6(ctx, prog, crate):
+    """A benchmark is found at its module path: the components the tree is keyed by are the entry's module_path split at
+    "::"; a generic instantiation adds its group's raw name and then - exactly when it has a const value - its type's
+    display name, in that order; from_benches feeds insert_entry the plain entry's module components and the generic
+    entry's path components respectively."""
+    from lib.patheval import PathEval
+    mp = prog.body("entry::meta::EntryMeta::module_path_components", crate)
+    pc = prog.body("entry::generic::GenericBenchEntry::path_components", crate)
+    fb = prog.body("entry::tree::EntryTree::from_benches", crate)
+    if not ctx.anchor("R12.6", "module_path_components, path_components, from_benches", sum(1 for x in (mp, pc, fb) if x), 3):
+        return
+    for b in (mp, pc, fb):
+        ctx.saw(b)
+    sums = PathEval(mp).run()
+    r = sums[0].ret if sums and len(sums) == 1 else None
+    ok = r is not None and r[0] == "site" and r[1] in ("core::str::split", "core::str::split_terminator") and r[3][0] == ("arg", 1, ("module_path",)) and r[3][1] == ("opaque", 'const:"::"') and r[1] == "core::str::split"
+    ctx.check(ok, "R12.6", ["module_path_components", "module_path-split-at-colons"], "module_path_components returns %s, expected self.module_path.split(\"::\")" % (r,), mp.where(0))
+
+    def flat(e):
+        if e[0] == "site" and e[1] == "std::iter::Iterator::chain" and len(e[3]) == 2:
+            return flat(e[3][0]) + flat(e[3][1])
+        return [e]
+    sums = PathEval(pc).run()
+    if ctx.check(bool(sums), "R12.6", ["path_components", "readable"], "cannot summarise path_components", pc.where(0)):
+        n_some = n_none = 0
+        for s in sums:
+            comps = flat(s.ret)
+            has_const = [p for a, p in s.conds if a[0] == "bool" and a[1][0] == "site" and a[1][1] == "std::option::Option::is_some" and a[1][3] and "const_value" in str(a[1][3][0])]
+            is_none = [p for a, p in s.conds if a[0] == "bool" and a[1][0] == "site" and a[1][1] == "std::option::Option::is_none" and a[1][3] and "const_value" in str(a[1][3][0])]
+            dsc = [a[2] for a, p in s.conds if p and a[0] == "discr" and "const_value" in str(a[1])]
+            with_const = (has_const == [True]) or (is_none == [False]) or dsc in ([1], ["other:0"])
+            without = (has_const == [False]) or (is_none == [True]) or dsc in ([0], ["other:1"])
+            ok0 = len(comps) >= 2 and comps[0][0] == "site" and comps[0][1] == "entry::meta::EntryMeta::module_path_components" and comps[0][3] == (("arg", 1, ("group", "meta")),)
+            ok1 = len(comps) >= 2 and comps[1] == ("adt", "std::option::Option", "Some", (("arg", 1, ("group", "meta", "raw_name")),), ("0",))
+            ctx.check(ok0 and ok1, "R12.6", ["path_components", "module-then-group-name"], "path_components starts with %s" % (comps[:2],), pc.where(s.blocks[-1]))
+            tail = comps[2:]
+            if with_const:
+                n_some += 1
+                t = tail[0] if len(tail) == 1 else None
+                ok = t is not None and t[0] == "site" and t[1] == "std::option::Option::map" and "('sptr', (1, ('ty',)))" in str(t[3][0])
+                ctx.check(ok, "R12.6", ["path_components", "with-const", "type-level-is-the-types-name"], "with a const value the components end with %s, expected self.ty's display name" % (tail,), pc.where(s.blocks[-1]))
+            elif without:
+                n_none += 1
+                ok = len(tail) == 0 or (len(tail) == 1 and tail[0][0] == "adt" and tail[0][2] == "None")
+                ctx.check(ok, "R12.6", ["path_components", "without-const", "no-type-level"], "without a const value the components end with %s, expected nothing" % (tail,), pc.where(s.blocks[-1]))
+            else:
+                ctx.fail("R12.6", ["path_components", "type-level-iff-const"], "a path of path_components does not decide on const_value.is_some() (%s)" % (s.conds,), pc.where(s.blocks[-1]))
+        ctx.check(n_some >= 1 and n_none >= 1, "R12.6", ["path_components", "both-cases"], "paths with const: %d, without: %d" % (n_some, n_none), pc.where(0))
+        cl = [x for x in prog.children(pc) if x.kind == "Closure"]
+        ctx.check(len(cl) == 1 and [c.callee for c in cl[0].live_calls()] == ["entry::generic::EntryType::display_name"], "R12.6", ["path_components", "type-level-display_name"],
+                  "the type level is named by %s" % [[c.callee for c in x.live_calls()] for x in cl], pc.where(0))
+    # from_benches: which components for which kind of entry
+    names_ = tables.variant_names(prog, "entry::AnyBenchEntry", crate)
+    sws = [x for x in tables.discr_switches(fb) if "AnyBenchEntry" in (fb.local_ty(x[2]) or "") and not (fb.local_ty(x[2]) or "").startswith("std::option::Option")]
+    if ctx.check(len(sws) == 1 and names_, "R12.6", ["from_benches", "match-on-entry-kind"], "matches on the entry: %d" % len(sws), fb.where(0)):
+        bi, t, _ = sws[0]
+        arms, otherwise = tables.arm_targets(t)
+        want = {"Bench": "entry::meta::EntryMeta::module_path_components", "GenericBench": "entry::generic::GenericBenchEntry::path_components"}
+        for nm in names_:
+            tgt = arms.get(names_.index(nm), otherwise)
+            lp_ = fb.innermost_loop(bi)
+            blocks = tables.exclusive_blocks(fb, tgt, [y for y in list(arms.values()) + [otherwise] if y != tgt], stop=[lp_["header"]] if lp_ else ())
+            cs = sorted({fb.call_at(x).callee for x in blocks if fb.call_at(x) is not None and fb.call_at(x).callee.endswith("path_components")})
+            ctx.check(cs == [want.get(nm)], "R12.6", ["from_benches", nm, "components"], "a %s entry is inserted under %s, expected %s" % (nm, cs, want.get(nm)), fb.where(tgt))
+
+
 def run(ctx, prog, crate):
+    r12_6(ctx, prog, crate)
     r12_4(ctx, prog, crate)
     r12_5(ctx, prog, crate)
 
